@@ -38,8 +38,11 @@ def step (s : DSt) (ln : String) : DSt × String :=
         (if cb == "-" then some 0 else cb.toNat?) with
     | some (al, _), some mb, some thr =>
       -- New: a router without ProvideMany forces the batch size to 1
-      let mb := if many == "1" then mb else 1
-      ({ cfg := some { al := al, maxBatch := mb, thr := thr, many := many == "1" }, st := { cbLive := cb != "-" } }, "ok")
+      -- many: 0 single-provide, 1 ProvideMany, 2 single-provide + Ready, 3 ProvideMany + Ready
+      let isMany := many == "1" || many == "3"
+      let mb := if isMany then mb else 1
+      ({ cfg := some { al := al, maxBatch := mb, thr := thr, many := isMany, hasReady := many == "2" || many == "3" },
+         st := { cbLive := cb != "-" } }, "ok")
     | _, _, _ => (s, "bad-op")
   | "reprov" :: fail :: stop :: ks =>
     match s.cfg, parseNats fail, parseNats stop, ks.mapM Proto.parseCid with
@@ -51,6 +54,34 @@ def step (s : DSt) (ln : String) : DSt × String :=
         ({ s with st := st }, s!"ret=nil calls=[{";".intercalate calls}] cbs=[{",".intercalate cbs}]")
       | none => (s, "ret=hang calls=[] cbs=[]")
     | _, _, _, _ => (s, "bad-op")
+  | ["reprov-kperr"] =>
+    match s.cfg with
+    | some cfg =>
+      match reprovideE cfg s.st (some .kpErr) [] (fun _ => true) (fun _ => true) with
+      | some (st, _, _) => ({ s with st := st }, "ret=err calls=[] cbs=[]")
+      | none => (s, "ret=hang calls=[] cbs=[]")
+    | none => (s, "bad-op")
+  | "reprov-cancel" :: _ =>
+    match s.cfg with
+    | some cfg =>
+      match reprovideE cfg s.st (some .cancelled) [] (fun _ => true) (fun _ => true) with
+      | some (st, _, _) => ({ s with st := st }, "ret=err calls=[] cbs=[]")
+      | none => (s, "ret=hang calls=[] cbs=[]")
+    | none => (s, "bad-op")
+  | ["stat"] =>
+    match s.cfg with
+    | some _ => (s, s!"total={s.st.total} last={s.st.lastBatch} ready={s.st.readyCalls}")
+    | none => (s, "bad-op")
+  | "concat" :: ts =>
+    match (splitStreams ts [] false).mapM (fun st => match st with
+        | none => some none
+        | some toks => (toks.mapM Proto.parseCid).map some) with
+    | some streams => (s, s!"out=[{",".intercalate ((concat streams).map Proto.showCid)}]")
+    | none => (s, "bad-op")
+  | "buffered" :: ts =>
+    match ts.mapM Proto.parseCid with
+    | some ks => (s, s!"out=[{",".intercalate ((buffered ks).map Proto.showCid)}]")
+    | none => (s, "bad-op")
   | "prio" :: ts =>
     match (splitStreams ts [] false).mapM (fun st => match st with
         | none => some none
